@@ -53,6 +53,7 @@ class Check:
         self.modules_consulted: set = set()
         self.assumptions: List[str] = []
         self.only_key: Optional[str] = None     # --replay
+        self.write_files = True
 
     # ---------------------------------------------------------------- record
     def consult(self, *funcs: FuncInfo) -> None:
@@ -121,19 +122,22 @@ class Check:
         for k in fixed_keys:
             if k in seen:
                 self.notes.append(f"finding recorded as fixed has RETURNED: {k}")
-        os.makedirs(os.path.join(VERIF, "replays", self.prop), exist_ok=True)
+        if self.write_files:
+            os.makedirs(os.path.join(VERIF, "replays", self.prop), exist_ok=True)
         for f in knowns:
             print(f"KNOWN-FINDING: property={self.prop} {f.rule} {f.where}: {known_keys[f.key].get('what', f.message)}")
         for f in violations:
             h = hashlib.sha256(f.key.encode()).hexdigest()[:12]
             rp = os.path.join(VERIF, "replays", self.prop, f"{h}.json")
-            with open(rp, "w") as fh:
-                json.dump(f.to_json(), fh, indent=1)
+            if self.write_files:
+                with open(rp, "w") as fh:
+                    json.dump(f.to_json(), fh, indent=1)
             print(f"  {f.file}:{f.line}: [{f.rule}] {f.where}: {f.message}")
             if f.path:
                 print(f"    path: {' -> '.join(f.path)}")
             print(f"VIOLATION property={self.prop} replay={rp}")
-        self._write_evidence(violations, knowns)
+        if self.write_files:
+            self._write_evidence(violations, knowns)
         n_ob = len(self.obligations)
         print(f"[{self.prop}/{self.tier}] {n_ob} rule instances over {len(self.functions_consulted)} functions "
               f"in {len(self.modules_consulted)} modules; {len(violations)} violation(s), "
